@@ -23,7 +23,8 @@ Flushable == BOOLEAN
 LastIDs   == {"absent", "empty", "ok", "multiline"}
 \* no topics: nil; empty: a non-nil empty list; one / two topics
 OnSession == {"unset", "reject", "accept-no-topics", "accept-empty-topics", "accept-one-topic", "accept-topics"}
-Provider  == {"nil", "err"}
+Provider  == {"nil", "err", "errcanceled"}   \* errcanceled: the provider refuses with an error that wraps context.Canceled (its own
+                                             \* backend gave up) while the request is alive: a refusal like any other
 
 Cases == [flushable : Flushable, lid : LastIDs, onsession : OnSession, provider : Provider]
 
@@ -38,8 +39,8 @@ Expected(c) ==
          topics |-> CASE c.onsession = "accept-topics" -> "given2"
                       [] c.onsession = "accept-one-topic" -> "given1"
                       [] OTHER -> "default",
-         status |-> IF c.provider = "err" THEN 500 ELSE 200,                  \* refused before anything was sent
-         wrote |-> IF c.provider = "err" THEN "error" ELSE "nothing"]
+         status |-> IF c.provider # "nil" THEN 500 ELSE 200,                  \* refused before anything was sent
+         wrote |-> IF c.provider # "nil" THEN "error" ELSE "nothing"]
 
 \* Server.Publish(msg, topics...): the provider is given the topics, DefaultTopic if none
 PubTopics == {"none", "one", "two"}
